@@ -360,7 +360,29 @@ def gen_plan(seed, tier):
     g.events.append(["h", _tick(r), k, a])
   g.events.sort(key=lambda e: e[1])
   steps.extend(g.events)
+  r2 = Rng(mix(seed, "hub"))
+  if r2.chance(0.2):
+    # the hub's other backend (--epoll-selecthub): pox.lib.epoll_select on
+    # a simulated epoll object.  It documents that it ignores the
+    # exceptional-condition lists, so those are left out of such plans.
+    cfg["epoll"] = True
+    _strip_x(steps)
+    steps[:] = [st for st in steps
+                if not (st[0] == "h" and st[2] == "exc")]
   return {"prop": PROP, "seed": seed, "cfg": cfg, "steps": steps}
+
+
+def _strip_x(node):
+  if isinstance(node, dict):
+    if "x" in node and "r" in node and "w" in node:
+      node["x"] = []
+      if not (node["r"] or node["w"]) and node.get("to") is None:
+        node["to"] = 0.5
+    for v in node.values():
+      _strip_x(v)
+  elif isinstance(node, list):
+    for v in node:
+      _strip_x(v)
 
 
 def minimise_hint(plan):
@@ -676,6 +698,7 @@ class Oracle(object):
 
   def __init__(self, sim, sched, plan, known):
     self.sim = sim
+    self.epoll = bool(plan["cfg"].get("epoll"))
     self.sched = sched
     self.cfg = plan["cfg"]
     self.known = known
@@ -1236,6 +1259,12 @@ class Oracle(object):
         except OSError:
           pass
 
+  def epoll_error(self, sk):
+    """the epoll backend reports a socket error / hang-up as an exceptional
+    condition to those who listed the socket there (Recv and Send do)"""
+    return self.epoll and (
+        sk.rx_reset or sk.tx_dead or sk.tx_fatal is not None)
+
   def resume_recv(self, where, L, w, v):
     now = self.sim.now
     sk = w["sock"]
@@ -1251,7 +1280,7 @@ class Oracle(object):
           self.fail("recv_value", where + ": %d byte(s) were read from the "
                     "socket but Recv returned None" % len(calls[0]))
         return
-      if sk.exceptional():
+      if sk.exceptional() or self.epoll_error(sk):
         return
       if w["to"] is not None:
         self.time_bounds(where, w, w["due"])
@@ -1308,7 +1337,7 @@ class Oracle(object):
       self.P["send_full"] += 1
       return
     self.P["send_short"] += 1
-    if sk.exceptional():
+    if sk.exceptional() or self.epoll_error(sk):
       return        # exceptional condition reported by select: error path
     if sk.tx_dead and calls and calls[-1][1] is None:
       return        # send() failed fatally: the property is silent on errors
@@ -1606,8 +1635,14 @@ def run_plan(plan):
     return sim.ch.below("prio", 8) / 8.0
   sched._random = rnd
 
+  base_select = sim.select
+  if cfg.get("epoll"):
+    ES = S.install_epoll(sim)
+    base_select = ES.EpollSelect().select
+    sim.probes["hub_epoll"] += 1
+
   def sel(rl, wl, xl, timeout=None):
-    got = sim.select(rl, wl, xl, timeout)
+    got = base_select(rl, wl, xl, timeout)
     O.last_sel = (sim.now, list(got[0]), list(got[1]), list(got[2]))
     return got
   sched._selectHub._select_func = sel
